@@ -145,7 +145,9 @@ class C02(Check):
         ctx.probe("leaves", n_leaves)
         sig = tuple(sorted(set(g.kinds)))
         ctx.state((sig, kind, entry, tuple(sorted(g.features))[:4]))
-        ctx.sample = {"circuit": str(circuit).splitlines(), "simulator": cfg.describe(), "entry": entry,
+        diagram = str(circuit).splitlines()
+        ctx.sample = {"circuit": diagram if len(diagram) <= 24 and max(map(len, diagram), default=0) < 200
+                      else [repr(op)[:120] for op in circuit.all_operations()][:20], "simulator": cfg.describe(), "entry": entry,
                       "repetitions": reps, "leaves_explored": n_leaves, "features": sorted(g.features)}
 
     @staticmethod
